@@ -355,7 +355,11 @@ spif_str_dup(spif_str_t self)
     ASSERT_RVAL(!SPIF_STR_ISNULL(self), (spif_str_t) NULL);
     tmp = SPIF_ALLOC(str);
     memcpy(tmp, self, SPIF_SIZEOF_TYPE(str));
-    tmp->s = (spif_charptr_t) STRDUP((const char *) STR_TEXT(self));
+    if (self->s != (spif_charptr_t) NULL) {
+        /* The copy advertises the same capacity, so it has to own that much. */
+        tmp->s = (spif_charptr_t) MALLOC(self->size);
+        memcpy(tmp->s, self->s, self->len + 1);
+    }
     tmp->len = self->len;
     tmp->size = self->size;
     return tmp;
